@@ -12,7 +12,6 @@ import (
 
 const zz17Kinds = 11
 
-var zz17VarLens = []int{0, 1, 2, 8, 9}
 
 // REDEEM_SCRIPT (putBtcRedeemScript) is outside: the accessor first classifies a real BTC multisig script.
 func zz17Record(kind int, tag string) zz17Rec {
@@ -38,15 +37,15 @@ func zz17Record(kind int, tag string) zz17Rec {
 	case 4: // REDEEM_BIND ‖ redeemChainID ‖ contractChainID ‖ redeemKey (variable)
 		rc, rcb := u64(".redeemchain")
 		cc, ccb := u64(".contractchain")
-		rk := zz17VarBytes(tag+".redeemkey", zz17VarLens)
+		rk := zz17VarBytes(tag+".redeemkey", zz17Lens(8, 9, 16))
 		keys := zz17Keys(func(ns *native.NativeService) { putContractBind(ns, rc, cc, rk, []byte{1}, 0) })
 		r.key, r.params = zz17Pick(keys, 0, REDEEM_BIND, 20+len(REDEEM_BIND)+16+len(rk)), [][]byte{rcb, ccb, rk}
 	case 5: // BIND_SIGN_INFO ‖ message (variable)
-		msg := zz17VarBytes(tag+".message", zz17VarLens)
+		msg := zz17VarBytes(tag+".message", zz17Lens(8, 9, 16))
 		keys := zz17Keys(func(ns *native.NativeService) { putBindSignInfo(ns, msg, &BindSignInfo{BindSignInfo: map[string][]byte{}}) })
 		r.key, r.params = zz17Pick(keys, 0, BIND_SIGN_INFO, 20+len(BIND_SIGN_INFO)+len(msg)), [][]byte{msg}
 	case 6: // BTC_TX_PARAM ‖ redeemKey (variable) ‖ redeemChainId
-		rk := zz17VarBytes(tag+".redeemkey", zz17VarLens)
+		rk := zz17VarBytes(tag+".redeemkey", zz17Lens(8, 9, 16))
 		rc, rcb := u64(".redeemchain")
 		keys := zz17Keys(func(ns *native.NativeService) { putBtcTxParam(ns, rk, rc, &BtcTxParamDetial{}) })
 		r.key, r.params = zz17Pick(keys, 0, BTC_TX_PARAM, 20+len(BTC_TX_PARAM)+len(rk)+8), [][]byte{rk, rcb}
